@@ -9,7 +9,7 @@ import sys
 from .. import core, engine, gen
 from ..core import Rng
 from ..engine import Outcome
-from .base import PropBase, STD, exec_args, gen_run, plan_of, not_meta, crashed, crash_text
+from .base import PropBase, STD, exec_args, gen_run, plan_of, not_meta, crashed, crash_text, gen_project_mode, input_args, project_candidates
 
 MANNERS = [("sig", 11), ("sig", 6), ("sig", 9), ("exit", 1), ("exit", 3), ("exit", 255), ("sig", 8), ("sig", 15)]
 
@@ -101,9 +101,12 @@ class C21(PropBase):
         if rng.chance(0.5):
             opts["--inline-suppr"] = "--inline-suppr"
         run = gen_run(rng, execs=("process",), maxjobs=6)
-        return {"tree": proj["tree"], "units": proj["units"], "langs": proj["langs"], "opts": opts,
-                "exitcode": rng.choice([1, 5, 37]), "run": run,
-                "faults": "all" if tier == "thorough" else {"single": 10, "multi": 3}, "fseed": rng.next() % (1 << 30)}
+        scn = {"tree": proj["tree"], "units": proj["units"], "langs": proj["langs"], "opts": opts,
+               "exitcode": rng.choice([1, 5, 37]), "run": run,
+               "faults": "all" if tier == "thorough" else {"single": 10, "multi": 3}, "fseed": rng.next() % (1 << 30)}
+        scn["project"] = gen_project_mode(rng, proj["units"], 0.25)
+        scn["bd"] = rng.chance(0.25)      # every run gets a fresh build dir: cache files are written by the dying workers
+        return scn
 
     def _boundaries(self, msgs):
         b = []
@@ -125,9 +128,21 @@ class C21(PropBase):
         os.makedirs(tree_dir)
         core.write_tree(tree_dir, gen.join_tree(scn["tree"]))
         units = list(scn["units"])
+        pm = scn.get("project")
+        if pm:   # one worker per compile-database entry, in that order
+            units = [x for u in units for x in ([u, u] if pm.get("dup") == u else [u])]
         E = scn["exitcode"]
-        args = STD + gen.flatten_opts(scn.get("opts", {})) + ["--error-exitcode=%d" % E] + exec_args(scn["run"]) + units
-        twin = core.run_sim("plain", tree_dir, args, plan=plan_of(scn["run"]), workdir=wd, tag="twin")
+        strip = tree_dir if pm else None
+
+        def args_for(tag):
+            b, roots = [], []
+            if scn.get("bd"):
+                os.makedirs(os.path.join(wd, "bd_" + tag))
+                b, roots = ["--cppcheck-build-dir=../bd_" + tag], ["../bd_" + tag]
+            return STD + gen.flatten_opts(scn.get("opts", {})) + ["--error-exitcode=%d" % E] + b + exec_args(scn["run"]) + \
+                input_args(scn, scn["units"], tree_dir, wd, "cdb"), roots
+        args, roots = args_for("twin")
+        twin = core.run_sim("plain", tree_dir, args, plan=plan_of(scn["run"]), roots=roots, workdir=wd, tag="twin", strip=strip)
         out.account(twin)
         if crashed(twin) or not twin.xml_ok:
             out.violate("subject-crash", "fault-free twin: %s" % (crashed(twin) or "malformed output"), [crashed(twin) or ""] + twin.stderr.strip().split("\n")[-5:])
@@ -162,7 +177,8 @@ class C21(PropBase):
             run = dict(scn["run"])
             run["die"] = [{"worker": b[0], "msg": b[1], "off": b[2], "how": m[0], "arg": m[1]} for b, m in pl]
             run["max_steps"] = 20000 + 50 * sum(len(v) for v in tm.values())
-            r = core.run_sim("plain", tree_dir, args, plan=plan_of(run), workdir=wd, tag="f%d" % pi)
+            args, roots = args_for("f%d" % pi)
+            r = core.run_sim("plain", tree_dir, args, plan=plan_of(run), roots=roots, workdir=wd, tag="f%d" % pi, strip=strip)
             out.account(r)
             fired = [l for l in r.trace if l.startswith("X ") and " die w" in l]
             victims = sorted(set(int(l.split(" die w")[1].split(" ")[0]) for l in fired))
@@ -189,7 +205,8 @@ class C21(PropBase):
             # (3) internal error naming each victim's file
             ce = [f for f in r.findings if f.id == "cppcheckError"]
             for v in victims:
-                if not any(f.locs and f.locs[0][0] == units[v] for f in ce):
+                # (through a compile database the worker is named "<file> <configuration>")
+                if not any(f.locs and (f.locs[0][0] == units[v] or f.locs[0][0].startswith(units[v] + " ")) for f in ce):
                     out.violate("no-internal-error", "no cppcheckError for the victim's file when worker dies %s" % tag,
                                 [desc, "cppcheckError findings: %s" % [f.short() for f in ce]], ids=tag)
             # (4) prediction from the transport trace
@@ -210,13 +227,19 @@ class C21(PropBase):
                 for t, ln, payload in ml:
                     if t == "2":
                         try:
-                            delivered.add(parse_payload(payload))
+                            k = parse_payload(payload)
+                            if strip and k[3][0].startswith(strip.rstrip("/") + "/"):
+                                k = k[:3] + ((k[3][0][len(strip.rstrip("/")) + 1:],) + k[3][1:],)
+                            delivered.add(k)
                         except (ValueError, IndexError):
                             out.error = "cannot parse a REPORT_ERROR payload from the trace"
                             return out
             expected = set(k for k in delivered if k in twin_keys)
             got = set(finding_key(f) for f in r.findings if not_meta(f) and f.id not in ("cppcheckError", "unmatchedSuppression") and f.id not in core.WHOLE_PROGRAM_IDS)
             exp2 = set(k for k in expected if k[0] not in core.WHOLE_PROGRAM_IDS and k[0] != "unmatchedSuppression")
+            if scn.get("bd"):
+                # the dying worker leaves a torn cache file; the parent's complaint about it concerns the victim, not the others
+                got = set(k for k in got if not (k[0] == "internalError" and k[2].startswith("failed to load '")))
             if got != exp2:
                 miss = sorted(exp2 - got)[:4]; extra = sorted(got - exp2)[:4]
                 out.violate("findings-not-contained", "%s when worker dies %s" % ("missing" if miss and not extra else "extra" if extra and not miss else "both", tag),
@@ -232,6 +255,11 @@ class C21(PropBase):
                 c = copy.deepcopy(scn); c["only"] = i
                 yield c
             return
+        for c in project_candidates(scn):
+            yield c
+        if scn.get("bd"):
+            c = copy.deepcopy(scn); c["bd"] = False
+            yield c
         for p in sorted(scn["tree"]):
             ch = scn["tree"][p]
             if isinstance(ch, list):
@@ -243,7 +271,7 @@ class C21(PropBase):
             yield c
 
     def describe(self, scn):
-        return {"units": scn["units"], "opts": gen.flatten_opts(scn.get("opts", {})), "error_exitcode": scn["exitcode"],
+        return {"units": scn["units"], "opts": gen.flatten_opts(scn.get("opts", {})), "error_exitcode": scn["exitcode"], "compile_commands": scn.get("project"), "build_dir": scn.get("bd"),
                 "run": " ".join(exec_args(scn["run"])), "faults": scn["faults"]}
 
 
